@@ -81,11 +81,10 @@ def python_text(sc, ap, order_seed):
 
 def fortran_text(sc, ap, order_seed):
     import dagrt.codegen.fortran as f
-    from simdag.gen.fortran_subset import make_registry
+    from simdag.gen.fortran_subset import make_registry, user_type_map
     code = build_dag(sc, ap, order_seed)
     freg, _twins = make_registry(sc)
-    cg = f.CodeGenerator("m", function_registry=freg,
-                         user_type_map={"y": f.ArrayType((sc.N,), f.BuiltinType("real*8"), index_vars="iv")})
+    cg = f.CodeGenerator("m", function_registry=freg, user_type_map=user_type_map(sc))
     buf = io.StringIO()
     with contextlib.redirect_stdout(buf):
         return cg(code)
